@@ -45,6 +45,17 @@ func (c *Ctx) pickRecord(cfg val.GenCfg) *pick {
 	}
 	for try := 0; try < 64; try++ {
 		p := &n.Batch.Programs[c.R.Intn(len(n.Batch.Programs))]
+		if c.onlyProgram != "" {
+			var idx []int
+			for i := range n.Batch.Programs {
+				if s := n.Batch.Programs[i].Schema; s != nil && s.Name == c.onlyProgram {
+					idx = append(idx, i)
+				}
+			}
+			if len(idx) > 0 {
+				p = &n.Batch.Programs[idx[c.R.Intn(len(idx))]]
+			}
+		}
 		bs := n.ByProg[p.ID]
 		if len(bs) == 0 {
 			continue
